@@ -4,6 +4,7 @@ import ast
 from .. import query, util
 from ..callgraph import CallGraph, LOOP, TRIO, NEWTHREAD, EXECUTOR, ANY
 from ..index import dotted
+from .. import slots
 from ..report import Undecided
 from . import common
 
@@ -144,7 +145,7 @@ def routing(chk, trio_entry):
     else:
         chk.ok(rule, base.qual, "self.asyncio_loop is assigned once from the constructor argument", node=stores[0][1])
     # the loop handed to the runners is the running loop obtained inside _manage_runners' coroutine
-    launch = prog.method("cobald.daemon.runners.meta_runner:MetaRunner", "_launch_runners")
+    launch = slots.launcher(prog)
     src = None
     for n in ast.walk(launch.node):
         if isinstance(n, ast.Assign) and isinstance(n.value, ast.Call) and prog.resolve(launch.module, n.value.func) in ("ext:asyncio.get_event_loop", "ext:asyncio.get_running_loop"):
@@ -162,7 +163,7 @@ def routing(chk, trio_entry):
     # trio token: None initialiser + one assignment from current_trio_token() inside the function run by trio.run
     if trio_entry is not None:
         cls = trio_entry.cls
-        toks = cls.fields.get("_trio_token", [])
+        toks = cls.fields.get(slots.trio_token(prog, cls), [])
         good = True
         real = []
         for n in toks:
